@@ -121,7 +121,7 @@ func (v *Value) String() string {
 	}
 
 	if t, ok := v.Interface().(fmt.Stringer); ok {
-		return t.String()
+		return stringOf(t)
 	}
 
 	switch v.getResolvedValue().Kind() {
@@ -170,6 +170,19 @@ func (v *Value) Integer() int {
 		logf("Value.Integer() not available for type: %s\n", v.getResolvedValue().Kind().String())
 		return 0
 	}
+}
+
+// stringOf calls t.String(). A String method promoted through a nil embedded pointer or
+// interface (a struct embedding a nil *time.Time is a Stringer) panics when it is called;
+// like fmt, which prints such a value as <nil>, this must not take the rendering down:
+// the value prints as nothing, like nil.
+func stringOf(t fmt.Stringer) (s string) {
+	defer func() {
+		if recover() != nil {
+			s = ""
+		}
+	}()
+	return t.String()
 }
 
 // floatToInt converts like int(f) for every f an int can hold and saturates beyond
